@@ -71,6 +71,7 @@ REWRITES = {
     "as_ref_on_mut_box_reference": ("re", r"(\b\w+)\.as_ref\(\)\.as_ref\(\)", r"Reference::as_ref(&**\1)", "x.as_ref().as_ref() on &mut Box<Reference<T>>: std blanket impl + Box::as_ref (`&**self`) + Reference::as_ref"),
     "and_then_inline": ("opt_closure", "and_then", ("", ""), "Option::and_then(f) inlined as its std definition `match self { Some(x) => f(x), None => None }` (Verus has no closures that capture &mut)"),
     "map_inline": ("opt_closure", "map", ("Some(", ")"), "Option::map(f) inlined as its std definition `match self { Some(x) => Some(f(x)), None => None }`"),
+    "range_eq_deref": ("re", r"\*(\w+) == token\.range", r"range_eq(\1, &token.range)", "derived PartialEq for Range<usize> has no vstd spec; shim compares start and end (the derived definition)"),
     "drop_const_fn": ("re", r"\bconst fn\b", "fn", "const fn that calls non-const shim"),
 }
 
